@@ -382,6 +382,7 @@ def run_mesh_impl(c):
             src = _wrap(meshgen.to_fc(c["src"]), c.get("wrap_s", c["wrap"]))
             # what the model sees: the data sets as exposed by the public accessors
             lref, lsrc = meshgen.from_fc(ref), meshgen.from_fc(src)
+            dig0 = (_fields_digest(ref), _fields_digest(src))
         except Exception:  # noqa: BLE001  (e.g. sorting a degenerate mesh): not a C14 case
             return None
         try:
@@ -397,8 +398,8 @@ def run_mesh_impl(c):
                 again = canon_entries(diff_entries(src.diff_to(ref)))
             except Exception as e:  # noqa: BLE001
                 again = f"E:{type(e).__name__}"
-            changed = [side for side, obj, before in (("reference", ref, lref), ("source", src, lsrc))
-                       if _fields_digest(meshgen.from_fc(obj)) != _fields_digest(before)]
+            changed = [side for side, obj, before in (("reference", ref, dig0[0]), ("source", src, dig0[1]))
+                       if _fields_digest(obj) != before]
             rev = None
             try:
                 rev = canon_entries(diff_entries(ref.diff_to(src)))
@@ -410,10 +411,14 @@ def run_mesh_impl(c):
             "changed": changed}
 
 
-def _fields_digest(lm):
-    """everything a logical data set exposes, NaN-safe (repr of the value lists)"""
-    return repr((lm["points"], lm["cells"], [(f["name"], f["dt"], f["tail"], f["v"]) for f in lm["pf"]],
-                 [(f["name"], f["ctype"], f["dt"], f["tail"], f["v"]) for f in lm["cf"]]))
+def _fields_digest(obj):
+    """everything a mesh data set exposes through its public accessors (bytes of the arrays: NaN-safe)"""
+    def b(a):
+        a = np.ascontiguousarray(np.asarray(a))
+        return (a.dtype.str, a.shape, a.tobytes())
+    dom = obj.domain
+    return (b(dom.points), [(ct.name, b(dom.connectivity(ct))) for ct in dom.cell_types],
+            [(f.name, b(f.values)) for f in obj.point_fields], [(f.name, ct.name, b(f.values)) for f, ct in obj.cell_fields_types])
 
 
 # ---- independent oracle for what the property demands
@@ -1341,9 +1346,9 @@ def run(ctx):
         eval_mesh_cases(ctx, cs, ts)
     # (2b) phase 6 directed mesh batch
     manyt = many_type_meshes()
-    n_p6 = ctx.scale(96, 4800)
-    plan = [(i, None) for i in range(n_p6)] + [(i, "many") for i in range(ctx.scale(4, 150))] + \
-           [(i, "big") for i in range(ctx.scale(1, 40))]
+    n_p6 = ctx.scale(96, 2400)
+    plan = [(i, None) for i in range(n_p6)] + [(i, "many") for i in range(ctx.scale(2, 80))] + \
+           [(i, "big") for i in range(ctx.scale(1, 20))]
     for i0 in range(0, len(plan), 48):
         cs, ts = [], []
         for i, var in plan[i0:i0 + 48]:
@@ -1351,7 +1356,7 @@ def run(ctx):
             cs.append(c); ts.append(t)
         eval_mesh_cases(ctx, cs, ts)
     cs, ts = [], []
-    for i in range(ctx.scale(4, 200)):
+    for i in range(ctx.scale(2, 100)):
         c, t = gen_p6_table_case(rng, i)
         cs.append(c); ts.append(t)
     eval_table_cases(ctx, cs, ts)
@@ -1375,7 +1380,7 @@ def run(ctx):
             cs.append(c); ts.append(t)
         eval_cli_mesh_cases(ctx, cs, ts, workroot)
         cs, ts = [], []
-        for i in range(ctx.scale(48, 960)):
+        for i in range(ctx.scale(36, 480)):
             c, t = gen_p6_cli_case(rng, i)
             cs.append(c); ts.append(t)
         eval_cli_mesh_cases(ctx, cs, ts, workroot)
